@@ -37,8 +37,8 @@ struct C03 : public Driver {
     void init() override { xalanInitOnce(); XalanXPathAPIInitialize(); }
 
     // an expression from the fixed pool, or one drawn from the XPath grammar (type-correct, or "wild": wrong arity, unknown names, extreme literals)
-    static std::string pickExpr(Rng& g, const std::vector<std::string>& names) {
-        unsigned k = (unsigned)g.below(4); if (k == 0) return g.pick(exprPool());
+    static std::string pickExpr(Rng& g, const std::vector<std::string>& names, bool bigDoc = false) {
+        unsigned k = (unsigned)g.below(4); if (k == 0 || bigDoc) return g.pick(exprPool());      // several reverse-axis steps over a 200-deep chain take minutes: slow, not hung
         ExprGen eg(g, k >= 2, names); return exprPlain(eg.make((int)g.range(2, 4)).first);
     }
     static Json srcFaultAt(Rng& g, const std::string& bytes, bool destructive) {
@@ -106,10 +106,10 @@ struct C03 : public Driver {
                 if (destructive && which == 9 && !s.resources.empty()) { auto it = s.resources.begin(); std::advance(it, gf.below(s.resources.size())); Json rf = Json::object(); rf["name"] = it->first; static const std::vector<std::string> rk = { "missing", "throwing", "corrupt" }; rf["kind"] = gf.pick(rk); rf["fault"] = srcFaultAt(gf, it->second, true); o["resFault"] = rf; }
             } else if (r < 13) { o["op"] = "compile"; o["xslFault"] = srcFaultAt(gf, s.xsl, destructive); }
             else if (r < 15) { o["op"] = "parse"; o["xerces"] = gf.chance(1, 2); o["docFault"] = srcFaultAt(gf, d.xml, destructive); }
-            else if (r < 17) { o["op"] = "param-expr"; std::string e = pickExpr(gf, d.names); SrcFault f = SrcFault::fromJson(srcFaultAt(gf, e, destructive)); o["expr"] = applySrcFault(e, f); o["faulted"] = f.destructive();
+            else if (r < 17) { o["op"] = "param-expr"; std::string e = pickExpr(gf, d.names, dc.deep || dc.manyNames); SrcFault f = SrcFault::fromJson(srcFaultAt(gf, e, destructive)); o["expr"] = applySrcFault(e, f); o["faulted"] = f.destructive();
                 // a parameter value that makes a lazily evaluated global variable abort the transformation part-way
                 if (gated && gf.chance(2, 3)) { unsigned q = (unsigned)gf.below(3); o["expr"] = q == 0 ? std::string("'abort'") : q == 1 ? std::string("'badkey'") : "'" + d.ids[gf.below(std::min<size_t>(d.ids.size(), 14))] + "'"; o["faulted"] = true; } }
-            else if (r < 19) { o["op"] = gf.chance(1, 2) ? "xpath-eval" : "xpath-capi"; std::string e = pickExpr(gf, d.names); SrcFault f = SrcFault::fromJson(srcFaultAt(gf, e, destructive)); o["expr"] = applySrcFault(e, f); o["faulted"] = f.destructive(); o["docFault"] = srcFaultAt(gf, d.xml, destructive && gf.chance(1, 3)); }
+            else if (r < 19) { o["op"] = gf.chance(1, 2) ? "xpath-eval" : "xpath-capi"; std::string e = pickExpr(gf, d.names, dc.deep || dc.manyNames); SrcFault f = SrcFault::fromJson(srcFaultAt(gf, e, destructive)); o["expr"] = applySrcFault(e, f); o["faulted"] = f.destructive(); o["docFault"] = srcFaultAt(gf, d.xml, destructive && gf.chance(1, 3)); }
             else { o["op"] = "capi-transform"; o["docFault"] = srcFaultAt(gf, d.xml, destructive && gf.chance(1, 2)); o["xslFault"] = srcFaultAt(gf, s.xsl, destructive && gf.chance(1, 2)); o["toHandler"] = gf.chance(1, 2); }
             ops.push(o);
         }
